@@ -1,4 +1,5 @@
 #include "common.h"
+#include "zoo_gen.h"
 #include <sstream>
 
 namespace vm {
@@ -50,6 +51,30 @@ void WarmUp()
 		try { GetOps(a).SaveZoo(z, o, IoOut{ &zb, nullptr }); } catch (...) {}
 		Zoo z2;
 		try { GetOps(a).LoadZoo(z2, o, IoIn{ &zb, nullptr }); } catch (...) {}
+		// the same with every member populated (fixed choices), through memory and streams
+		for (uint64_t fixedSeed = 1; fixedSeed <= 3; ++fixedSeed)
+		{
+			sim::Source fixed(0x5EED0000 + fixedSeed);
+			ZooGenCfg zg;
+			zg.archive = a;
+			zg.maxLen = 4;
+			Zoo full;
+			GenZoo(fixed, sim::L_DOC, full, zg);
+			if (a == A_CSV) EnsureCsvRow(full);
+			std::string fb;
+			try { GetOps(a).SaveZoo(full, o, IoOut{ &fb, nullptr }); } catch (...) {}
+			std::ostringstream fos;
+			try { GetOps(a).SaveZoo(full, o, IoOut{ nullptr, &fos }); } catch (...) {}
+			Zoo back;
+			back.skipIntKeyMaps = full.skipIntKeyMaps;
+			back.csvRoot = full.csvRoot;
+			try { GetOps(a).LoadZoo(back, o, IoIn{ &fb, nullptr }); } catch (...) {}
+			std::stringstream fss(fb);
+			Zoo back2;
+			back2.skipIntKeyMaps = full.skipIntKeyMaps;
+			back2.csvRoot = full.csvRoot;
+			try { GetOps(a).LoadZoo(back2, o, IoIn{ nullptr, &fss }); } catch (...) {}
+		}
 	}
 }
 }
